@@ -8,6 +8,7 @@ package main
 
 import (
 	"bytes"
+	"crypto/sha256"
 	"encoding/hex"
 	"encoding/json"
 	"fmt"
@@ -98,10 +99,14 @@ func coqMisb(ms []types.Misbehavior) string {
 	return coqout.List(it)
 }
 
+// coqTxs renders a tx list for the model; every transaction is abstracted to the first
+// 16 bytes of its SHA-256 (isEqual only compares transactions for byte equality, which
+// the digest preserves up to collisions; raw transactions can be 33 kB).
 func coqTxs(txs [][]byte) string {
 	var it []string
 	for _, t := range txs {
-		it = append(it, coqout.Bytes(t))
+		d := sha256.Sum256(t)
+		it = append(it, coqout.Bytes(d[:16]))
 	}
 	return coqout.List(it)
 }
@@ -457,7 +462,7 @@ func (c *c01Run) newValidatorStep(ref *muxdrv.Replica) *txGen {
 
 // ---------- one block ----------
 
-var pathNames = []string{"process", "replay", "stale-propose+process", "stale-propose+replay", "shadow-propose+process"}
+var pathNames = []string{"process", "replay", "stale-propose+process", "stale-propose+replay", "shadow-propose+process", "stale-same-header+process"}
 
 func (c *c01Run) block(b int) *violation {
 	r := c.rng
@@ -612,7 +617,7 @@ func (c *c01Run) block(b int) *violation {
 		assign[i], assign[j] = assign[j], assign[i]
 	}
 	if r.Chance(40) {
-		assign[r.Intn(3)] = 2 + r.Intn(3)
+		assign[r.Intn(3)] = 2 + r.Intn(4)
 	}
 
 	var metaBodies = map[int][]byte{}
@@ -646,6 +651,19 @@ func (c *c01Run) block(b int) *violation {
 				c.decisionCase(rp, "begin", in, list, desc, i)
 				res, err = rp.Replay(in, list)
 			}
+		case "stale-same-header+process":
+			// the replica prepared a proposal under the SAME header with the same number of
+			// transactions but different content (only the transaction comparison of isEqual
+			// tells it apart from the real block).
+			alt := make([][]byte, len(cand))
+			for k := range cand {
+				alt[k] = muxdrv.FlipBit(cand[k], 8*len(cand[k])-1)
+			}
+			if _, err = rp.Propose(in, alt); err != nil {
+				return c.fail("stale PrepareProposal failed: "+err.Error(), h, i, desc, nil)
+			}
+			c.decisionCase(rp, "process", in, list, desc, i)
+			res, err = rp.Process(in, list)
 		case "shadow-propose+process":
 			// the replica prepares the SAME content under the same header (signing the metadata
 			// with its own key): the metadata body must equal the proposer's.
@@ -938,10 +956,16 @@ func c01Main(seed uint64, out string, blocks, runs int, replay string, noBg bool
 			os.Exit(2)
 		}
 		var cs c01Case
-		if err := json.Unmarshal(b, &cs); err != nil || cs.Blocks == 0 {
+		var wrapped struct {
+			Case *c01Case `json:"case"`
+		}
+		if err := json.Unmarshal(b, &wrapped); err == nil && wrapped.Case != nil && wrapped.Case.Blocks > 0 {
+			cs = *wrapped.Case
+		} else if err := json.Unmarshal(b, &cs); err != nil || cs.Blocks == 0 {
 			fmt.Println("bad replay file")
 			os.Exit(2)
 		}
+		cs.Height, cs.Replica, cs.Block, cs.Index, cs.Kind = 0, "", nil, 0, ""
 		cases = append(cases, cs)
 	} else {
 		for i := 0; i < runs; i++ {
